@@ -2,6 +2,7 @@ import ASV.Drv.J
 import ASV.Drv.C01
 import ASV.Spec.Grammar
 import ASV.Generated.ShippedRules
+import ASV.Spec.Rulesets
 namespace ASV.Drv.C02
 open Lean ASV ASV.Drv ASV.Rules ASV.Parser ASV.Grammar
 
@@ -214,10 +215,117 @@ def handleTokens (j : Json) : R Json := do
   | .error e => return jObj [("err_tok", Json.str e.name)]
   | .ok toks => return jObj [("tokens", tokensJson toks)]
 
+/-! ### rulesets: `get_ruleset` sequences and `Ruleset.from_files` -/
+
+open ASV.Rulesets in
+def rulesJson (rs : List Rule) : Json :=
+  jArr (rs.map fun r => jArr [Json.str r.name, Json.str r.category, toJson r.cutoff, toJson r.neighbourhood])
+
+def fracOfJson (j : Json) : R (Int × Nat) := do
+  return (← asInt (← idx j 0), ← asNat (← idx j 1))
+
+open ASV.Rulesets in
+def reqOfJson (j : Json) : R Req := do
+  return { strictness := ← strF j "strictness", names := ← listOf asStr (← fld j "names"),
+           cats := ← listOf asStr (← fld j "cats"), fungi := ← boolF j "fungi",
+           cmul := ← fracOfJson (← fld j "cmul"), nmul := ← fracOfJson (← fld j "nmul") }
+
+/-- rule rows sent by the harness: [name, category, cutoff, neighbourhood] -/
+def rowsOfJson (j : Json) : R (List (String × String × Nat × Nat)) :=
+  listOf (fun r => do
+    return (← asStr (← idx r 0), ← asStr (← idx r 1), ← asNat (← idx r 2), ← asNat (← idx r 3))) j
+
+def rowsOf (rs : List Rule) : List (String × String × Nat × Nat) :=
+  rs.map fun r => (r.name, r.category, r.cutoff, r.neighbourhood)
+
+open ASV.Rulesets in
+/-- the shipped rule files parsed with default multipliers -/
+def parsedShipped (cfg : Cfg) (level : String) : Except Err (List Rule) :=
+  match shippedUpTo level Generated.ShippedRules.files with
+  | .ok files => createRules { cfg with cutoffMul := (1, 1), nbhMul := (1, 1) } files [] []
+  | .error _ => .error .value
+
+open ASV.Rulesets in
+def handleRulesets (j : Json) : R Json := do
+  let cfg ← cfgOfJson j
+  -- the rule files of each strictness are parsed once per case
+  let table := Generated.ShippedRules.files.map fun f => (f.1, parsedShipped cfg f.1)
+  let parsed : String → Except Err (List Rule) := fun l => (table.lookup l).getD (.error .value)
+  let reqs ← listOf reqOfJson (← fld j "steps")
+  let checks ← listOf (fun s => pure ((s.getObjVal? "check").toOption == some (Json.bool true))) (← fld j "steps")
+  -- the model: one process, requests in order; a failing request leaves the state alone
+  let mut st : State := {}
+  let mut handed : List (Option RS) := []
+  let mut stepsOut : List Json := []
+  for (q, chk) in reqs.zip checks do
+    let mut extra : List (String × Json) := []
+    if chk then
+      match checkOptions parsed cfg.cats q st with
+      | .ok (b, st') =>
+        st := st'
+        extra := [("check", toJson b)]
+      | .error e => extra := [("check", Json.str e.name)]
+    match getRuleset parsed q st with
+    | .ok (rs, st') =>
+      st := st'
+      handed := handed ++ [some rs]
+      stepsOut := stepsOut ++ [jObj ([("rules", rulesJson (rs.read st.heap))] ++ extra)]
+    | .error e =>
+      handed := handed ++ [none]
+      stepsOut := stepsOut ++ [jObj ([("err", Json.str e.name)] ++ extra)]
+  let finalOut := handed.map fun o => match o with
+    | some rs => rulesJson (rs.read st.heap)
+    | none => Json.null
+  -- the spec on the implementation's observations
+  let specOf (q : Req) : Option (List (String × String × Nat × Nat)) :=
+    match reqMul q, parsed q.strictness with
+    | .ok m, .ok rules => some (rowsOf (wanted rules (sortDedupStr q.names) (sortDedupStr q.cats) m))
+    | _, _ => none
+  let implSteps ← asArr (fldD j "impl_steps" (jArr []))
+  let implFinal ← asArr (fldD j "impl_final" (jArr []))
+  let check (obs : List Json) : R (List Json) :=
+    (reqs.zip obs).mapM fun (q, o) => do
+      match o with
+      | Json.null => pure Json.null
+      | o =>
+        match (o.getObjVal? "rules").toOption with
+        | none => pure (toJson (specOf q).isNone)
+        | some rows => pure (toJson (specOf q == some (← rowsOfJson rows)))
+  let finalObs := implFinal.map fun o => match o with
+    | Json.null => Json.null
+    | o => jObj [("rules", o)]
+  -- `check_options` let the options through iff they are fine
+  let checkSpec : List Json := (reqs.zip implSteps).map fun (q, o) =>
+    match (o.getObjVal? "check").toOption, parsed q.strictness with
+    | some (Json.bool b), .ok rules => toJson (b == optionsOk rules cfg.cats q)
+    | _, _ => Json.null
+  return jObj [("model", jObj [("steps", jArr stepsOut), ("final", jArr finalOut)]),
+               ("spec", jObj [("steps", jArr (← check implSteps)), ("final", jArr (← check finalObs)),
+                              ("checks", jArr checkSpec)])]
+
+open ASV.Rulesets in
+def handleFromFiles (j : Json) : R Json := do
+  let cfg ← cfgOfJson j
+  let level ← strF j "strictness"
+  let c ← fracOfJson (← fld j "cmul")
+  let n ← fracOfJson (← fld j "nmul")
+  match mkMul c n, parsedShipped cfg level with
+  | .ok m, .ok rules =>
+    let (rs, heap) := fromFiles rules m []
+    let want := rowsOf (wanted rules [] [] m)
+    let implOk ← (match (j.getObjVal? "impl_rules").toOption with
+      | some (Json.arr a) => do pure (toJson (want == (← rowsOfJson (Json.arr a))))
+      | _ => pure Json.null : R Json)
+    return jObj [("model", jObj [("rules", rulesJson (rs.read heap))]), ("spec", jObj [("ok", implOk)])]
+  | .error e, _ => return jObj [("model", jObj [("err", Json.str e.name)]), ("spec", jObj [("ok", Json.null)])]
+  | _, .error e => return jObj [("model", jObj [("err", Json.str e.name)]), ("spec", jObj [("ok", Json.null)])]
+
 def handle (j : Json) : R Json := do
   match (← strF j "kind") with
   | "tokens" => handleTokens j
   | "parse" => handleParse j
+  | "rulesets" => handleRulesets j
+  | "from_files" => handleFromFiles j
   | k => throw s!"C02: unknown kind {k}"
 
 end ASV.Drv.C02
